@@ -45,6 +45,14 @@ RAW_SCRIPTS = {
                                  "    us = [i for i in range(0, 7, 7)]\n    mon.write(us[0])\n    vs = [i for i in range(5, 6)]\n    mon.write(vs[0])\n",
     "raw-tuple-reset-to-empty": "samples = [1]\ncount = 0\nwhile True:\n    samples.append(7)\n    samples.append(8)\n    mon.write(samples[-1] + count)\n    samples, count = [], count + 1\n",
     "raw-tuple-refill-from-literals": "a = [1, 2]\nb = [3]\nwhile True:\n    a.append(5)\n    b.append(6)\n    mon.write(a[-1] + b[-1])\n    a, b = [1, 2], [3]\n",
+    # lists that grow past 255 elements (by a comprehension, by appends), then are copied / re-assigned / passed on and read at the far end
+    "raw-long-lists": "def last(xs):\n    return xs[-1]\nbig = [k for k in range(300)]\nmon.write(big[299])\nwhile True:\n    window = [k * 2 for k in range(300)]\n    dup = window\n"
+                      "    dup.append(7)\n    mon.write(dup[299] + dup[300])\n    mon.write(last(dup))\n    trace = [0]\n    for k in range(259):\n        trace.append(k)\n"
+                      "    mon.write(trace[259] + trace[100])\n    trace.remove(0)\n    mon.write(trace[-1] + trace[255])\n    both = trace\n    both.append(5)\n    mon.write(both[259] + both[-1])\n",
+    # a helper that only reads its list parameter while it re-binds the global the caller passed: the parameter keeps the OLD list
+    "raw-param-outlives-global": "hist = [1, 2, 3, 4]\ndef peek(xs, n):\n    global hist\n    hist = [9]\n    return xs[n - 1]\ndef shrink_then_sum(xs):\n    global hist\n"
+                                 "    hist = [7, 7]\n    t = 0\n    for q in range(len(xs)):\n        t += xs[q]\n    return t\nwhile True:\n    hist = [1, 2, 3, 4]\n"
+                                 "    mon.write(peek(hist, 4))\n    mon.write(hist[0])\n    hist = [5, 6, 7, 8]\n    mon.write(shrink_then_sum(hist))\n    mon.write(hist[1])\n",
     "raw-reassign-then-grow-and-shrink": "buf = [4, 5, 6]\nwhile True:\n    buf = [9, 8, 7]\n    buf.append(1)\n    buf.append(2)\n    mon.write(buf[0] + buf[4])\n    buf.remove(1)\n    buf.remove(2)\n",
 }
 
